@@ -33,6 +33,9 @@ type loopRt struct {
 	cntBound ssa.Value // B itself when defined outside the loop
 	cntLenOf ssa.Value // x when B is len(x) and x is defined outside the loop
 	cntDown  bool      // `for i := v0; i >= 0; i--`
+	// range loops (over a slice or a map): variables incremented exactly once per iteration
+	stepPhis  []*ssa.Phi
+	stepInits []Val
 }
 
 type Frame struct {
@@ -478,6 +481,9 @@ func (fr *Frame) invariants(rt *loopRt) []Clause {
 	if rt.cntPhi != nil {
 		out = append(out, Clause{Text: "@counterauto"})
 	}
+	for i := range rt.stepPhis {
+		out = append(out, Clause{Text: fmt.Sprintf("@stepauto:%d", i)})
+	}
 	if rt.li.Spec != nil {
 		out = append(out, rt.li.Spec.Invariants...)
 	}
@@ -519,6 +525,38 @@ func (fr *Frame) evalInv(inv Clause, rt *loopRt, st *State, phis map[*ssa.Phi]Va
 		n := e.toTerm(st, rt.rangeLen)
 		return And(Cmp("<=", IntLit(-1), p), Cmp("<=", p, Arith("-", n, IntLit(1)))), nil
 	}
+	if strings.HasPrefix(inv.Text, "@stepauto:") {
+		// c == c0 + (number of iterations completed so far)
+		var i int
+		fmt.Sscanf(inv.Text, "@stepauto:%d", &i)
+		pv, ok := phis[rt.stepPhis[i]]
+		if !ok {
+			return True, nil
+		}
+		p := e.toTerm(st, pv)
+		v0 := e.toTerm(st, rt.stepInits[i])
+		if p.Sort != SInt || v0.Sort != SInt {
+			return True, nil
+		}
+		var done Term
+		switch {
+		case rt.idxPhi != nil:
+			ip, ok := phis[rt.idxPhi]
+			if !ok {
+				return True, nil
+			}
+			done = Arith("+", e.toTerm(st, ip), IntLit(1)) // the index phi runs from -1
+		case rt.iter != nil && rt.iter.cntRoot != nil:
+			c, ok := st.cell[rt.iter.cntRoot]
+			if !ok {
+				return True, nil
+			}
+			done = c.T
+		default:
+			return True, nil
+		}
+		return Eq(p, Arith("+", v0, done)), nil
+	}
 	if inv.Text == "@counterauto" {
 		// v0 <= i and (i <= B or i == v0): holds on entry; in the body i < B, so i+1 <= B
 		pv, ok := phis[rt.cntPhi]
@@ -558,6 +596,9 @@ func (fr *Frame) evalInv(inv Clause, rt *loopRt, st *State, phis map[*ssa.Phi]Va
 // detectCounter recognises `for i := v0; i < B; i++` where B is defined outside the loop, or is
 // len(x) of a slice x defined outside the loop, and i is only changed by the increment.
 func (fr *Frame) detectCounter(rt *loopRt, st *State, phiEntry map[*ssa.Phi]Val) {
+	if rt.idxPhi != nil || (rt.iter != nil && rt.iter.cntRoot != nil) {
+		fr.detectSteps(rt, phiEntry)
+	}
 	if rt.idxPhi != nil || rt.iter != nil {
 		return
 	}
@@ -781,6 +822,9 @@ func (fr *Frame) collectModified(blocks map[*ssa.BasicBlock]bool, st *State, roo
 		case *ssa.Next:
 			if iv, ok := sc.vals[ins.Iter]; ok && iv.K == vIter && iv.Iter.visRoot != nil {
 				roots[iv.Iter.visRoot] = true
+				if iv.Iter.cntRoot != nil {
+					roots[iv.Iter.cntRoot] = true
+				}
 			}
 		case ssa.CallInstruction:
 			c := ins.Common()
@@ -1111,4 +1155,44 @@ func (fr *Frame) lookupNameAt(name string, st *State, at *ssa.BasicBlock) (Val, 
 		return fr.vals[bestV], true
 	}
 	return Val{}, false
+}
+
+// detectSteps: in a range loop, the variables `c` with one initial value from outside the loop and
+// c+1 around the single back edge (incremented exactly once per iteration): c == c0 + iterations.
+func (fr *Frame) detectSteps(rt *loopRt, phiEntry map[*ssa.Phi]Val) {
+	h := rt.li.Head
+	for _, ins := range h.Instrs {
+		phi, ok := ins.(*ssa.Phi)
+		if !ok {
+			break
+		}
+		if phi == rt.idxPhi || len(phi.Edges) != 2 || len(h.Preds) != 2 {
+			continue
+		}
+		if b, ok := phi.Type().Underlying().(*types.Basic); !ok || b.Info()&types.IsInteger == 0 {
+			continue
+		}
+		good, haveInit := false, false
+		for i, pred := range h.Preds {
+			ed := phi.Edges[i]
+			if pred == h || rt.li.Body[pred] {
+				step, ok := ed.(*ssa.BinOp)
+				if !ok || step.X != ssa.Value(phi) || step.Op != token.ADD {
+					break
+				}
+				c, ok := step.Y.(*ssa.Const)
+				if !ok || c.Value == nil || c.Int64() != 1 {
+					break
+				}
+				good = true
+			} else {
+				haveInit = true
+			}
+		}
+		iv, ok := phiEntry[phi]
+		if good && haveInit && ok && iv.K == vTerm {
+			rt.stepPhis = append(rt.stepPhis, phi)
+			rt.stepInits = append(rt.stepInits, iv)
+		}
+	}
 }
